@@ -314,10 +314,10 @@ pub fn gen_train_types(rng: &mut Rng, max_cars: u32, max_types: usize) -> TrainS
 }
 
 pub fn gen_net_for_trains(rng: &mut Rng, focus: &str) -> (Vec<Link>, usize) {
-    gen_net_for_trains_opt(rng, focus, false)
+    gen_net_for_trains_opt(rng, focus, false, false)
 }
 /// `downhill`: a long corridor that only descends (at the domain's grade bound) in the forward direction
-pub fn gen_net_for_trains_opt(rng: &mut Rng, focus: &str, downhill: bool) -> (Vec<Link>, usize) {
+pub fn gen_net_for_trains_opt(rng: &mut Rng, focus: &str, downhill: bool, steep: bool) -> (Vec<Link>, usize) {
     let mut o = NetOpts::small(rng);
     o.n_sidings = rng.usize(0, 3);
     o.grade_bound = *rng.pick(&[0.0, 0.002, 0.004, 0.006, 0.008]);
@@ -345,6 +345,9 @@ pub fn gen_net_for_trains_opt(rng: &mut Rng, focus: &str, downhill: bool) -> (Ve
     };
     o.params = false;
     o.by_type = rng.chance(0.2);
+    if steep {
+        o.grade_bound = 0.008;
+    }
     if downhill {
         o.descending = true;
         o.grade_bound = 0.008;
@@ -360,7 +363,10 @@ pub fn generate(rng: &mut Rng, focus: &str, thorough: bool) -> Case {
     // heavy train behind few units on a long descent, with a friction brake that ramps up slowly: the friction
     // brake (not the dynamic brake) holds the speed, and what it can do depends on what it did a step ago
     let downhill = focus != "C14" && focus != "C18" && focus != "C13" && focus != "C02" && rng.chance(if focus == "C03" { 0.1 } else { 0.05 });
-    let (links, ns) = gen_net_for_trains_opt(rng, focus, downhill);
+    // its mirror image: the same heavy train on an ordinary line with grades at the domain bound, mostly with
+    // 2 s steps - it loses speed on every climb and may stall outright (force deficit x step > speed left)
+    let heavy_up = !downhill && focus != "C14" && focus != "C18" && focus != "C13" && focus != "C02" && rng.chance(if focus == "C12" || focus == "C03" { 0.1 } else { 0.05 });
+    let (links, ns) = gen_net_for_trains_opt(rng, focus, downhill, heavy_up);
     let choice = rng.next();
     let full = if downhill || rng.chance(0.75) { fwd_route(ns, choice) } else { rev_route(ns, choice) };
     let route: Vec<u32> = full.iter().map(|x| *x as u32).collect();
@@ -369,7 +375,7 @@ pub fn generate(rng: &mut Rng, focus: &str, thorough: bool) -> Case {
     let max_cars = ((path_len * 0.6 / 18.0) as u32).clamp(6, if thorough { 150 } else { 90 });
     // for C18 more car types: sums over the per-type map must not depend on its iteration order
     let mut train = if focus == "C18" { gen_train_types(rng, max_cars, 7) } else { gen_train(rng, max_cars) };
-    if downhill {
+    if downhill || heavy_up {
         // one unit (dynamic braking well below what the descent asks for) more often than two
         let keep = if rng.chance(0.65) { 1 } else { 2 };
         train.consist.truncate(keep);
@@ -388,7 +394,7 @@ pub fn generate(rng: &mut Rng, focus: &str, thorough: bool) -> Case {
     let set_speed_kind = match focus {
         "C14" => true,
         "C03" | "C13" | "C02" => false,
-        _ => !downhill && rng.chance(0.4),
+        _ => !downhill && !heavy_up && rng.chance(0.4),
     };
     // a speed-limited run needs room for the train plus its braking curve from the end of authority
     let room = if set_speed_kind { 50.0 } else { 2500.0 };
@@ -541,7 +547,7 @@ pub fn generate(rng: &mut Rng, focus: &str, thorough: bool) -> Case {
         let v0 = if !exact_landing && rng.chance(0.015) { -*rng.pick(&[0.01, 0.5, 3.0]) } else { v0 };
         Kind::SetSpeed { v0, trace, shipped_walk: rng.chance(0.4) }
     } else {
-        let dt = *rng.pick(&[1.0, 1.0, 1.0, 0.5, 2.0]);
+        let dt = if heavy_up && rng.chance(0.7) { 2.0 } else { *rng.pick(&[1.0, 1.0, 1.0, 0.5, 2.0]) };
         match rng.below(10) {
             0..=2 => Kind::LimitWalk { dt },
             3 | 4 => {
